@@ -27,6 +27,8 @@ mod store;
 mod tlv;
 
 mod kernels;
+mod fakenode;
+mod scen_height;
 
 use serde_json::{json, Value};
 
@@ -50,6 +52,8 @@ fn main() {
             }
             json!({ "results": outs })
         }
+        "height" => scen_height::run_height(&input),
+        "poll_loop" => scen_height::run_poll_loop(&input),
         k => kernels::run(k, &input),
     };
     println!("{}", out);
